@@ -542,8 +542,9 @@ def run(chk, tier, replay):
     lines += pagecodec_lines(pcases)
     # 2. the same cases on the system libraries (spec self-check) and on carquet
     half = max(2, cl.NPROC // 2)
-    ran = cl.parallel({"ref": lambda: cl.run_parallel(refbin, lines, leaks=False, nproc=half),
-                       "impl": lambda: cl.run_parallel(binary, lines, nproc=cl.NPROC)})
+    costs = [cl.line_cost(ln) for ln in lines]
+    ran = cl.parallel({"ref": lambda: cl.run_parallel(refbin, lines, leaks=False, nproc=half, costs=costs, cost_limit=48e6),
+                       "impl": lambda: cl.run_parallel(binary, lines, nproc=cl.NPROC, costs=costs, cost_limit=48e6)})
     rres, rfaults, _ = ran["ref"]
     res, faults, leaky = ran["impl"]
     for fmt in ("snappy", "lz4"):
